@@ -364,6 +364,32 @@ private:
         read_value(visitor, b, ec);
     }
 
+    static bool is_value_type(uint8_t type) noexcept
+    {
+        switch (type)
+        {
+            case jsoncons::ubjson::ubjson_type::null_type: 
+            case jsoncons::ubjson::ubjson_type::no_op_type: 
+            case jsoncons::ubjson::ubjson_type::true_type: 
+            case jsoncons::ubjson::ubjson_type::false_type: 
+            case jsoncons::ubjson::ubjson_type::int8_type: 
+            case jsoncons::ubjson::ubjson_type::uint8_type: 
+            case jsoncons::ubjson::ubjson_type::int16_type: 
+            case jsoncons::ubjson::ubjson_type::int32_type: 
+            case jsoncons::ubjson::ubjson_type::int64_type: 
+            case jsoncons::ubjson::ubjson_type::float32_type: 
+            case jsoncons::ubjson::ubjson_type::float64_type: 
+            case jsoncons::ubjson::ubjson_type::high_precision_number_type: 
+            case jsoncons::ubjson::ubjson_type::char_type: 
+            case jsoncons::ubjson::ubjson_type::string_type: 
+            case jsoncons::ubjson::ubjson_type::start_array_marker: 
+            case jsoncons::ubjson::ubjson_type::start_object_marker: 
+                return true;
+            default:
+                return false;
+        }
+    }
+
     void read_value(json_visitor& visitor, uint8_t type, std::error_code& ec)
     {
         switch (type)
@@ -611,6 +637,12 @@ private:
                 more_ = false;
                 return;
             }
+            if (!is_value_type(b))
+            {
+                ec = ubjson_errc::unknown_type;
+                more_ = false;
+                return;
+            }
             c = source_.peek();
             if (JSONCONS_UNLIKELY(c.eof))
             {
@@ -705,6 +737,12 @@ private:
             if (source_.read(&b, 1) == 0)
             {
                 ec = ubjson_errc::unexpected_eof;
+                more_ = false;
+                return;
+            }
+            if (!is_value_type(b))
+            {
+                ec = ubjson_errc::unknown_type;
                 more_ = false;
                 return;
             }
